@@ -68,8 +68,8 @@ func allPerms(n int) [][]int {
 }
 
 func selectorEngine(w *run.Worker) {
-	// quick: 4000 maps; thorough: 400000 maps (x ~350 hashes each).
-	w.Cases("selector", w.N(4000, 400000), func(c *run.Case) {
+	// quick: 4000 maps; thorough: 300000 maps (x ~300 hashes each).
+	w.Cases("selector", w.N(4000, 300000), func(c *run.Case) {
 		r := caseRng(w, c)
 		// Shape of the case.
 		tieCase := r.Chance(1, 3)
@@ -228,7 +228,7 @@ func selectorEngine(w *run.Worker) {
 				w.Count("sel_maps_with_ties", 1)
 			}
 			for _, h := range ties {
-				hs = append(hs, hv{h, "tie"})
+				hs = append(hs, hv{h, "searchedtie"})
 			}
 		}
 
@@ -270,6 +270,14 @@ func selectorEngine(w *run.Worker) {
 			}
 			if tied >= 2 {
 				cnt["sel_tie_hashes"]++ // whatever its class
+				if weightMode == 0 || weightMode == 6 {
+					cnt["sel_tie_hashes_equal_weights"]++
+				} else {
+					cnt["sel_tie_hashes_mixed_weights"]++
+				}
+				if tied >= 3 {
+					cnt["sel_tie_hashes_three_way"]++
+				}
 			}
 			for _, v := range variants {
 				j := v.sel.GetShard(h)
